@@ -260,9 +260,12 @@ pub fn playout(g: &mut Game, player: &mut Player, max_plies: usize, rng: &mut Rn
     for ply in 0..=max_plies {
         g.check_state(rep);
         let s = g.state.clone();
-        let term = s.is_terminal();
-        let va = s.valid_actions();
-        let chosen = if term.is_some() || va.is_empty() || ply == max_plies {
+        let (Some(term), Some(va)) = (guard(|| s.is_terminal()), guard(|| s.valid_actions())) else {
+            rep.count("games-stopped-by-panic");
+            break;
+        };
+        let off_board = va.iter().any(|a| matches!(a, Action::Move(q, _) if q.index() >= 64));
+        let chosen = if term.is_some() || va.is_empty() || ply == max_plies || off_board {
             None
         } else if s.is_play_phase() {
             Some(player.choose(g, &va, rng))
@@ -273,7 +276,7 @@ pub fn playout(g: &mut Game, player: &mut Player, max_plies: usize, rng: &mut Rn
             sink.emit(&format!("S {}", enc_state(&s, g.init_hash)), "ok");
             sink.emit("O", &observe(&s));
             if rng.chance(em.all_t_pm, 1000) {
-                for a in s.valid_actions_no_rep() {
+                for a in guard(|| s.valid_actions_no_rep()).unwrap_or_default() {
                     g.emit_take(sink, &a);
                 }
             } else if let Some(a) = &chosen {
